@@ -15,6 +15,10 @@ hmod!(pub(crate) explore, "explore.rs");
 #[cfg(feature = "shuttle")]
 hmod!(pub(crate) sched, "sched.rs");
 #[cfg(not(feature = "shuttle"))]
+hmod!(pub(crate) fault, "fault.rs");
+#[cfg(not(feature = "shuttle"))]
+hmod!(pub(crate) c05, "c05.rs");
+#[cfg(not(feature = "shuttle"))]
 hmod!(pub(crate) c08, "c08.rs");
 #[cfg(not(feature = "shuttle"))]
 hmod!(pub(crate) c08b, "c08b.rs");
